@@ -505,8 +505,46 @@ def r13_7(ck, F):
                   f"soon as `done` is set: an incremental subscription taken after done() yields a truncated mirror", b.loc(bb, i))
 
 
+def r13_8(ck, F):
+    ck.rule("R13.8", "a mirror relays every event it receives: in each *Subscription::mirror task the relay to the mirror's own "
+            "subscribers (broadcast send, decided by receiver_count()) happens before the event is applied and before any exit "
+            "of that iteration — in particular the Done event is relayed although the task stops after applying it",
+            "a subscription taken from a mirror before the observed collection is done, then done(): the relay is skipped on "
+            "the iteration that ends the task, the second-level mirror never reports completion (and reports Closed when the "
+            "first mirror is dropped)", floor=4)
+    for adt, (file, inner, ev, mirror_inner, sub, mirrored) in OBSERVABLES.items():
+        if inner is None:
+            continue        # MirroredList has no subscribe(): its task relays nothing
+        task = F.bodies.get(f"{sub}::mirror::{{closure#0}}")
+        if task is None:
+            cands = [b for k, b in F.bodies.items() if k.startswith(f"{sub}::mirror::") and b.kind == "coroutine"]
+            task = cands[0] if cands else None
+        if task is None:
+            raise mir.AnchorMissing(f"mirror task of {sub}")
+        he = [bb for bb, t in task.calls() if (callee(t) or "").endswith("::handle_event")]
+        sends = [bb for bb, t in task.calls() if (callee(t) or "").endswith("broadcast::sender::Sender::send") or
+                 (callee(t) or "") == "rch::broadcast::Sender::send"]
+        short = sub.split("::")[-1]
+        if not he or not sends:
+            ck.bad(f"{short}::mirror#relay-before-apply", f"{sub}::mirror: relay send ({len(sends)}) or handle_event ({len(he)}) not found",
+                   task.loc(0))
+            continue
+        polls = [a["poll_bb"] for a in task.awaits() if a.get("poll_bb") is not None]
+        late = [s_ for s_ in sends if any(s_ in task.reach([h], avoid=polls, include_start=False) for h in he)]
+        # every path from the start of the iteration's event handling to handle_event passes the relay decision
+        guards = [s_ for s_ in task.reachable if task.term(s_)["t"] == "switch" and
+                  any(c[1].endswith("::receiver_count") for c in mir.calls_in(switch_expr(task, s_)))]
+        decided_first = all(any(task.dominates(g, h) for g in guards + sends) for h in he)
+        ck.expect(not late and decided_first, f"{short}::mirror#relay-before-apply",
+                  "the relay (receiver_count() guard + send) precedes handle_event on every path",
+                  f"{sub}::mirror relays an event only after applying it" + (f" (send at {task.loc(late[0])} follows handle_event)" if late else
+                                                                            " (handle_event is reachable without the relay decision)")
+                  + ": an event that ends the task (Done) or fails to apply is never relayed to the mirror's subscribers",
+                  task.loc(he[0]))
+
+
 def run(ck, F):
-    for r in (r13_1, r13_2, r13_3, r13_3b, r13_4, r13_5, r13_6, r13_7):
+    for r in (r13_1, r13_2, r13_3, r13_3b, r13_4, r13_5, r13_6, r13_7, r13_8):
         ck.run_rule(r)
 
 
